@@ -408,6 +408,10 @@ impl<N> TarjanScc<N> {
         F: FnMut(&[N]),
         N: Copy + PartialEq,
     {
+        // Start the numbering afresh, so that a reused state reports component indices
+        // counting from zero again.
+        self.index = 1;
+        self.componentcount = usize::MAX;
         self.nodes.clear();
         self.nodes
             .resize(g.node_bound(), NodeData { rootindex: None });
